@@ -375,7 +375,7 @@ def finalize(tr):
             if "out" in call and call["out"] is not None:
                 out = [num(call["out"])]
             if call.get("outset") is not None:
-                out = sorted(num(t) for t in call["outset"])
+                out = [0] + sorted(num(t) for t in call["outset"])
         recs.append({"pre": prev, "c": c, "res": {"err": err, "out": out}, "post": post})
         prev = post
     return recs
